@@ -85,7 +85,7 @@ func c18r1(c *core.Ctx) {
 				}
 			case *ast.CallExpr:
 				if onErrPath {
-					if cal := calleeOf(info, x); cal != nil && core.RecvNamed(cal) == ct {
+					if cal := calleeOf(info, x); cal != nil && (core.RecvNamed(cal) == ct || core.RecvNamed(cal) == codeT) {
 						if d := p.Decl(cal); d != nil && d.Body != nil && d != fd {
 							visit(d.Body, true)
 						}
